@@ -52,6 +52,16 @@ def _counts(ctx: Ctx) -> Dict[str, int]:
     return {"shards": ctx.pick(16, 64), "per": ctx.pick(5000, 10000), "imax": ctx.pick(24, 300)}
 
 
+ROUND4_RULE = (' Round 4 dimensions: every MVL/MVLD (prefix, opcode, operand shape) with I in 2..24 (1/4: 25..200) and BP/PX/PY solved so that the internal run of the destination (or the source) passes over one of the cells EC..EE with bytes still to copy; where the instruction sits: every (prefix, opcode) pair placed so that byte offset k of its encoding is the first byte of a new 64 KiB page (k cycling through 1..len-1, boundaries 10000h..F0000h), and 1/16 of all other cases at a page boundary (offset 0..len); what the emulator object did before: nothing (1/2), a valid instruction executed or only decoded (1/4), a fetch the decoder rejects (1/4; rejection class drawn uniformly from those the decoder exhibits: undefined mode/register, operand assertion, unfusable PRE), at the same address, next to it or elsewhere -- registers, memory and power state are then restored to the case.')
+
+ROUND4_ASSUMPTIONS = [
+    "block moves whose destination run passes over BP/PX/PY (EC..EE) while an operand is addressed through them are inside the domain: the README MVL rows latch both addresses before the loop ('d<-(n), s<-[r3]. Loop I times: [d++]<-[s++]'; '(m++) <- (n++)' abbreviates the same loop), a rendered operand denotes one start address (state at instruction entry) and 'the range implied by I' is the run of I consecutive bytes from it; EX*/EXL/arithmetic and decimal chains rewriting the cells stay skipped",
+    "the instruction under test may sit anywhere in the code space, in particular with a 64 KiB page boundary between any two of its bytes: the text is what the disassembler shows for the bytes at consecutive addresses from the instruction's address (Binary Ninja hands get_instruction_text a linear byte string) and the next PC is address + length (property C05: 'an instruction that reports no branch always continues at address plus length'); jumps/calls/returns straddling a page stay skipped, the top of the 1 MiB space is not used (what follows FFFFF is undocumented)",
+    "the Emulator object may have performed another operation before (valid instruction executed/decoded, rejected fetch via execute_instruction/decode_instruction, at the same or another address); afterwards registers incl. TEMPs, memory and power state are set to the case's machine state, so only the object's own non-architectural state differs from a fresh emulator -- the property quantifies over instruction x machine state, not over emulator histories; verdicts that vanish on a fresh emulator are tagged",
+    "executed length != rendered length: values are not compared (C04 'length' verdict), the touched locations are still compared with the denoted ones",
+]
+
+
 def run(ctx: Ctx) -> Report:
     c = _counts(ctx)
     tasks: List[Any] = [(PROPERTY, i, c["shards"], ctx.seed, c["per"], c["imax"], SALT) for i in range(c["shards"])]
@@ -63,9 +73,15 @@ def run(ctx: Ctx) -> Report:
     # large iteration counts (c03_gen.big_count): few, slow cases -> many small tasks, scheduled first
     bs = ctx.pick(16, 64)
     tasks = [(PROPERTY, i, bs, ctx.seed, ctx.pick(5, 6), 24, SALT, "bigcount") for i in range(bs)] + tasks
+    # block moves whose internal run passes over the BP/PX/PY cells with bytes still to copy (every MVL/MVLD head x
+    # prefix), and every (prefix, opcode) placed so that each byte offset of its encoding starts a new 64 KiB page
+    tasks += [(PROPERTY, i, fs, ctx.seed, ctx.pick(12, 32), 24, SALT, "overptr") for i in range(fs)]
+    ps = 16
+    tasks += [(PROPERTY, i, ps, ctx.seed, ctx.pick(3, 6), 24, SALT, "pagecross") for i in range(ps)]
+    K.GN.warm()
     rep = ctx.merge_reports(ctx.pmap(K.explore_shard, tasks))
-    rep.rule = RULE
-    rep.assumptions = list(ASSUMPTIONS)
+    rep.rule = RULE + ROUND4_RULE
+    rep.assumptions = list(ASSUMPTIONS) + list(ROUND4_ASSUMPTIONS)
     rep.exhaustive = False
     return rep
 
